@@ -1065,6 +1065,9 @@ func (x *Exec) codeAccess(fr *Frame, st *State, p Ptr, write bool, pos token.Pos
 		if p.Fresh && !(h.Kind == "onwrite" && !strings.Contains(h.Src, "this")) {
 			continue
 		}
+		if h.Kind == "writeguard" && key != h.Key {
+			continue // guards apply to stores of exactly this field
+		}
 		if key == h.Key || strings.HasPrefix(key, h.Key+".") || strings.HasPrefix(h.Key, key+".") || len(p.Path) == 0 {
 			x.applyHook(fr, st, h, Ptr{Base: p.Base, Root: p.Root}, write, pos)
 		}
@@ -1087,6 +1090,7 @@ func (x *Exec) applyHook(fr *Frame, st *State, h *Hook, this Ptr, write bool, po
 			old := x.load(st, *x.hookPtr)
 			x.pure--
 			env.vars["changed"] = Scalar{T: not(x.eqValue(old, x.hookNew)), Typ: boolT}
+			env.vars["oldvalue"] = old
 		}()
 	}
 	if n, ok := this.Root.(*types.Named); ok && n.Obj().Pkg() != nil {
@@ -1101,6 +1105,20 @@ func (x *Exec) applyHook(fr *Frame, st *State, h *Hook, this Ptr, write bool, po
 		k := "protected:" + h.Key
 		fr.occ[k]++
 		o := &Obligation{Name: fmt.Sprintf("%s/%s%s@%d", x.topKey, fr.prefix, k, fr.occ[k]), Kind: "protected", Guard: st.Reach, Prop: prop,
+			Pos: x.pos(pos), Src: h.Src, FnName: x.topKey, Inputs: x.inputs}
+		o.Props = append(o.Props, h.Props...)
+		x.em.oblige(o)
+	case "writeguard":
+		if !write || x.em.discard {
+			return
+		}
+		if _, ok := env.vars["oldvalue"]; !ok {
+			return
+		}
+		prop := x.evalBool(env, h.By)
+		k := "writeguard:" + h.Key
+		fr.occ[k]++
+		o := &Obligation{Name: fmt.Sprintf("%s/%s%s@%d", x.topKey, fr.prefix, k, fr.occ[k]), Kind: "writeguard", Guard: st.Reach, Prop: prop,
 			Pos: x.pos(pos), Src: h.Src, FnName: x.topKey, Inputs: x.inputs}
 		o.Props = append(o.Props, h.Props...)
 		x.em.oblige(o)
